@@ -126,19 +126,20 @@ def translate_read_counts(path, rel):
     return chunk, defaults
 
 
-def translate_filter_call(path, rel, defaults):
+def translate_filter_call(path, rel, defaults, func='count_fragments_binned', coqname='g_job_filter'):
     """the call `read_counts(read, min_mq=min_mq, dedup=dedup, read1_only=True, ignore_mp=ignore_mp)` inside
-    count_fragments_binned, negated in an `if not ...: continue`"""
+    count_fragments_binned (resp. `read_counts(read, min_mq=min_mq, dedup=dedup, verbose=False)` inside
+    count_methylation_binned), negated in an `if not ...: continue`"""
     src = open(path).read()
-    fn = py2coq.find_function(ast.parse(src), 'count_fragments_binned')
+    fn = py2coq.find_function(ast.parse(src), func)
     calls = [n for n in ast.walk(fn) if isinstance(n, ast.Call) and isinstance(n.func, ast.Name) and n.func.id == 'read_counts']
     if len(calls) != 1:
-        raise Untranslatable('count_fragments_binned: expected exactly one read_counts call, found %d' % len(calls))
+        raise Untranslatable('%s: expected exactly one read_counts call, found %d' % (func, len(calls)))
     call = calls[0]
     ifs = [n for n in ast.walk(fn) if isinstance(n, ast.If) and isinstance(n.test, ast.UnaryOp)
            and isinstance(n.test.op, ast.Not) and n.test.operand is call]
     if len(ifs) != 1 or len(ifs[0].body) != 1 or not isinstance(ifs[0].body[0], ast.Continue) or ifs[0].orelse:
-        raise Untranslatable('count_fragments_binned: the filter is not `if not read_counts(...): continue`')
+        raise Untranslatable('%s: the filter is not `if not read_counts(...): continue`' % func)
     if len(call.args) != 1 or ast.unparse(call.args[0]) != 'read':
         raise Untranslatable('count_fragments_binned: read_counts positional arguments changed')
     actual = {}
@@ -165,7 +166,7 @@ def translate_filter_call(path, rel, defaults):
     body = 'g_read_counts %s %s %s %s %s is_read1 is_qcfail is_duplicate has_mp mp_unique mapq' % (
         mm, vals['dedup'], vals['read1_only'], vals['ignore_mp'], vals['ignore_qcfail'])
     params = '(has_min_mq : bool) (min_mq : Z) (dedup ignore_mp : bool) (is_read1 is_qcfail is_duplicate has_mp mp_unique : bool) (mapq : Z)'
-    return _chunk(rel, call, src, 'g_job_filter', params, body)
+    return _chunk(rel, call, src, coqname, params, body)
 
 
 def regen_bincount():
@@ -190,6 +191,8 @@ def regen_bincount():
     add(translate_filter_call(p, rel, defaults))
     for tm in translate_regions(p, rel):
         add(tm)
+    for tm in translate_methylation(p, rel, defaults):
+        add(tm)
     py2coq.write_gen(os.path.join(fw.COQ, 'Gen', 'GenBinCount.v'), '', chunks)
     return meta
 
@@ -210,7 +213,7 @@ def translate_assign(path, rel, func, target, coqname, params):
     return _chunk(rel, v, src, coqname, '(%s : Z)' % ' '.join(py2coq.mangle(x) for x in params), body)
 
 
-def translate_owner_test(path, rel, func):
+def translate_owner_test(path, rel, func, coqname='g_not_owned'):
     """the unique `if <test over site, start, end>: continue` inside func"""
     src = open(path).read()
     fn = py2coq.find_function(ast.parse(src), func)
@@ -223,7 +226,7 @@ def translate_owner_test(path, rel, func):
     if len(nodes) != 1:
         raise Untranslatable('%s: expected exactly one `if <site/start/end test>: continue`, found %d' % (func, len(nodes)))
     t = nodes[0].test
-    return _chunk(rel, t, src, 'g_not_owned', '(site start end_ : Z)', py2coq.ExprTranslator().b(t))
+    return _chunk(rel, t, src, coqname, '(site start end_ : Z)', py2coq.ExprTranslator().b(t))
 
 
 def _check_loop_shape(path):
@@ -259,6 +262,124 @@ def translate_regions(path, rel):
         '(cut_pos start stop : Z)', repo_rel=rel, which='test'))
     out.append(py2coq.translate_inline_test(path, '_generate_count_dict', ['int(cut_pos / bin_size)'], {}, 'g_region_bin',
                                             '(cut_pos bin_size : Z)', repo_rel=rel, which='assign'))
+    # the sibling with the same pattern: get_binned_counts_prefixed / _generate_count_dict_prefixed (two widening
+    # assignments, one per region-tuple shape: both must be the same expression)
+    src = open(path).read()
+    fn = py2coq.find_function(ast.parse(src), 'get_binned_counts_prefixed')
+    wid = [n for n in ast.walk(fn) if isinstance(n, ast.Assign) and len(n.targets) == 1 and ast.unparse(n.targets[0]) == 'start'
+           and not isinstance(n.value, ast.Constant)]
+    if len(wid) != 2 or ast.unparse(wid[0].value) != ast.unparse(wid[1].value):
+        raise Untranslatable('get_binned_counts_prefixed: expected the same region-start widening in both tuple branches, found %r'
+                             % [ast.unparse(n.value) for n in wid])
+    free = {n.id for n in ast.walk(wid[0].value) if isinstance(n, ast.Name)} - {'max', 'min', 'int', 'abs'}
+    if not free <= {'start', 'fs'}:
+        raise Untranslatable('get_binned_counts_prefixed: widening mentions %r' % sorted(free))
+    out.append(_chunk(rel, wid[0].value, src, 'g_pregion_start', '(start fs : Z)', py2coq.ExprTranslator().z(wid[0].value)))
+    out.append(py2coq.translate_inline_test(
+        path, '_generate_count_dict_prefixed', ['cut_pos < start'],
+        {'start is not None': 'true', 'stop is not None': 'true'}, 'g_pregion_skip',
+        '(cut_pos start stop : Z)', repo_rel=rel, which='test'))
+    out.append(py2coq.translate_inline_test(path, '_generate_count_dict_prefixed', ['int(cut_pos / bin_size)'], {}, 'g_pregion_bin',
+                                            '(cut_pos bin_size : Z)', repo_rel=rel, which='assign'))
+    return out
+
+
+def _top_index(loop, node):
+    """index of the top-level statement of `loop`'s body that contains `node` (None when outside)"""
+    for i, st in enumerate(loop.body):
+        if any(x is node for x in ast.walk(st)):
+            return i
+    return None
+
+
+def translate_methylation(path, rel, defaults):
+    """count_methylation_binned: fetch window, ownership test of every aligned position, the dyad shift, the bin
+    expressions and the read filter - each located BY ROLE (fail closed):
+      for ... in enumerate(alignments.fetch(contig=contig, start=f_start, stop=f_end)):
+          if not read_counts(read, min_mq=min_mq, dedup=dedup, verbose=False): continue
+          for i, (qpos, site) in enumerate(read.get_aligned_pairs(matches_only=True)):
+              if <ownership test over site, start, end>: continue          <- first use of `site`
+              ... if read.is_reverse and dyad_mode: site += 1 ...          <- after the ownership test
+              if single_location: ... else: bin_i = ..; bin_start = ..; bin_end = ..   <- after the shift
+              ... met_counts[sample, bin_id][final_call] += 1"""
+    F = 'count_methylation_binned'
+    src = open(path).read()
+    fn = py2coq.find_function(ast.parse(src), F)
+    out = [translate_assign(path, rel, F, 'f_start', 'g_m_f_start', ['start', 'max_fragment_size']),
+           translate_assign(path, rel, F, 'f_end', 'g_m_f_end', ['end', 'max_fragment_size', 'contig_size'])]
+    fetch = [n for n in ast.walk(fn) if isinstance(n, ast.Call) and isinstance(n.func, ast.Attribute) and n.func.attr == 'fetch'
+             and any(k.arg == 'stop' for k in n.keywords)]
+    if len(fetch) != 1 or fetch[0].args or sorted((k.arg, ast.unparse(k.value)) for k in fetch[0].keywords) != \
+            [('contig', 'contig'), ('start', 'f_start'), ('stop', 'f_end')]:
+        raise Untranslatable('%s: the alignment fetch call changed' % F)
+    loops = [n for n in ast.walk(fn) if isinstance(n, ast.For) and 'get_aligned_pairs' in ast.unparse(n.iter)]
+    if len(loops) != 1:
+        raise Untranslatable('%s: expected exactly one loop over get_aligned_pairs, found %d' % (F, len(loops)))
+    loop = loops[0]
+    if ast.unparse(loop.target) != '(i, (qpos, site))' or \
+            ast.unparse(loop.iter) != 'enumerate(read.get_aligned_pairs(matches_only=True))' or loop.orelse:
+        raise Untranslatable('%s: the aligned-pairs loop changed: for %s in %s' % (F, ast.unparse(loop.target), ast.unparse(loop.iter)))
+    # ownership test: top-level statement of the pair loop
+    owner = [st for st in loop.body if isinstance(st, ast.If) and len(st.body) == 1 and isinstance(st.body[0], ast.Continue)
+             and not st.orelse and 'site' in {x.id for x in ast.walk(st.test) if isinstance(x, ast.Name)}
+             and {x.id for x in ast.walk(st.test) if isinstance(x, ast.Name)} <= {'site', 'start', 'end'}]
+    if len(owner) != 1:
+        raise Untranslatable('%s: expected exactly one `if <site/start/end test>: continue` in the aligned-pairs loop, found %d' % (F, len(owner)))
+    i_own = loop.body.index(owner[0])
+    for st in loop.body[:i_own]:
+        if any(isinstance(x, ast.Name) and x.id == 'site' for x in ast.walk(st)):
+            raise Untranslatable('%s: `site` is used before the ownership test' % F)
+    out.append(_chunk(rel, owner[0].test, src, 'g_m_not_owned', '(site start end_ : Z)', py2coq.ExprTranslator().b(owner[0].test)))
+    # every other write to `site` inside the pair loop: exactly the dyad shift, after the ownership test
+    writes = [n for n in ast.walk(loop) if isinstance(n, (ast.Assign, ast.AugAssign, ast.AnnAssign))
+              and any(isinstance(x, ast.Name) and x.id == 'site'
+                      for t in (n.targets if isinstance(n, ast.Assign) else [n.target]) for x in ast.walk(t))]
+    alt = [n for n in writes if isinstance(n, ast.Assign) and 'obtain_approximate_reference_cut_position' in ast.unparse(n.value)]
+    writes = [n for n in writes if n not in alt]
+    if len(writes) != 1 or not isinstance(writes[0], ast.AugAssign) or not isinstance(writes[0].op, (ast.Add, ast.Sub)):
+        raise Untranslatable('%s: expected exactly one `site += <n>` (dyad shift) in the aligned-pairs loop, found %d writes' % (F, len(writes)))
+    aug = writes[0]
+    guards = [n for n in ast.walk(loop) if isinstance(n, ast.If) and len(n.body) == 1 and n.body[0] is aug and not n.orelse]
+    if len(guards) != 1:
+        raise Untranslatable('%s: the dyad shift is not the whole body of one `if`' % F)
+    i_dyad = _top_index(loop, aug)
+    if i_dyad is None or i_dyad <= i_own:
+        raise Untranslatable('%s: the dyad shift is not after the ownership test' % F)
+    tr = py2coq.ExprTranslator(env={'read.is_reverse': 'is_reverse', 'dyad_mode': 'dyad_mode'})
+    free = {x.id for x in ast.walk(guards[0].test) if isinstance(x, ast.Name)}
+    if not free <= {'read', 'dyad_mode'}:
+        raise Untranslatable('%s: the dyad guard mentions %r' % (F, sorted(free)))
+    shifted = ast.parse('site %s (%s)' % ('+' if isinstance(aug.op, ast.Add) else '-', ast.unparse(aug.value)), mode='eval').body
+    if {x.id for x in ast.walk(aug.value) if isinstance(x, ast.Name)}:
+        raise Untranslatable('%s: the dyad shift amount is not a constant' % F)
+    out.append(_chunk(rel, guards[0], src, 'g_m_dyad_site', '(site : Z) (is_reverse dyad_mode : bool)',
+                      '(if %s then %s else site)' % (tr.b(guards[0].test), py2coq.ExprTranslator().z(shifted))))
+    # bins: the `if single_location: .. else: bin_i / bin_start / bin_end` that is a top-level statement of the pair loop
+    sl = [st for st in loop.body if isinstance(st, ast.If) and ast.unparse(st.test) == 'single_location']
+    if len(sl) != 1 or loop.body.index(sl[0]) <= i_dyad:
+        raise Untranslatable('%s: expected one `if single_location:` after the dyad shift in the aligned-pairs loop' % F)
+    names = [(ast.unparse(st.targets[0]) if isinstance(st, ast.Assign) and len(st.targets) == 1 else None) for st in sl[0].orelse]
+    if names != ['bin_i', 'bin_start', 'bin_end']:
+        raise Untranslatable('%s: the binned branch assigns %r' % (F, names))
+    for st, (coqname, params) in zip(sl[0].orelse, (('g_m_bin_i', ['site', 'bin_size']), ('g_m_bin_start', ['bin_size', 'bin_i']),
+                                                    ('g_m_bin_end', ['bin_size', 'bin_i', 'contig_size']))):
+        free = {n.id for n in ast.walk(st.value) if isinstance(n, ast.Name)} - {'max', 'min', 'int', 'abs'}
+        if not free <= set(params):
+            raise Untranslatable('%s: %s mentions %r' % (F, ast.unparse(st), sorted(free - set(params))))
+        out.append(_chunk(rel, st.value, src, coqname, '(%s : Z)' % ' '.join(py2coq.mangle(x) for x in params),
+                          py2coq.ExprTranslator().z(st.value)))
+    i_sl = loop.body.index(sl[0])
+    later = [n for st in loop.body[i_sl + 1:] for n in ast.walk(st)
+             if isinstance(n, (ast.Assign, ast.AugAssign)) and any(isinstance(x, ast.Name) and x.id in ('bin_start', 'bin_end', 'site')
+                                                                   for t in (n.targets if isinstance(n, ast.Assign) else [n.target])
+                                                                   for x in ast.walk(t))]
+    if later:
+        raise Untranslatable('%s: bin_start / bin_end / site are written again after the bin computation' % F)
+    inc = [n for st in loop.body[i_sl + 1:] for n in ast.walk(st) if isinstance(n, ast.AugAssign)
+           and ast.unparse(n).replace(' ', '') == 'met_counts[sample,bin_id][final_call]+=1']
+    if len(inc) != 1:
+        raise Untranslatable('%s: `met_counts[sample, bin_id][final_call] += 1` not found after the bin computation' % F)
+    out.append(translate_filter_call(path, rel, defaults, func=F, coqname='g_m_filter'))
     return out
 
 
@@ -343,6 +464,83 @@ def enc_input(lib, run, njobs):
     return [cfg, genome, sched]
 
 
+# ---- extension (b): count_methylation_binned
+M_SAMPLE_ID = {None: 0, 'bulk_sample': 0, 'c1': 1, 'c2': 2, 'c3': 3}
+STRAND_ID = {None: 0, '+': 1, '-': 2}
+XM_CODE = {'Z': 1, 'z': 2}
+
+
+def m_positions(r):
+    """reference positions of get_aligned_pairs(matches_only=True) for the CIGARs make_bam writes (M or M N M)"""
+    L, span = r['len'], span_of(r)
+    if span > L:
+        h = L // 2
+        return list(range(r['pos'], r['pos'] + h)) + list(range(r['pos'] + h + (span - L), r['pos'] + span))
+    return list(range(r['pos'], r['pos'] + L))
+
+
+def m_passes_py(r, run):
+    f = r['flag']
+    return not (f & 512) and not (run['dedup'] and (f & 1024)) and r.get('mp') in (None, 'unique') and \
+        (run['min_mq'] is None or r['mq'] >= run['min_mq'])
+
+
+def py_mpre(lib, run):
+    return run['b'] > 0 and run['k'] > 0 and run['mfs'] >= 0 and not run['dyad']
+
+
+def py_mspec(lib, run):
+    """declarative methylation matrix {(sample, strand, contig, bin_start, bin_end): [n_z, n_Z]} - python transcription
+    of [m_decl] (no dyad shift)"""
+    out = {}
+    b = run['b']
+    for r in lib['reads']:
+        if not m_passes_py(r, run):
+            continue
+        length = lib['contigs'][r['c']][1]
+        for pos, ch in zip(m_positions(r), r['xm']):
+            if ch not in 'Zz':
+                continue
+            strand = (2 if r['flag'] & 16 else 1) if run['stranded'] else 0
+            cell = (M_SAMPLE_ID[r.get('sm')], strand, r['c'] + 1, b * (pos // b), min(b * (pos // b + 1), length))
+            v = out.setdefault(cell, [0, 0])
+            v[1 if ch == 'Z' else 0] += 1
+    return {k: tuple(v) for k, v in out.items()}
+
+
+def canon_mcells(lib, cells):
+    names = {n: i + 1 for i, (n, _) in enumerate(lib['contigs'])}
+    out = {}
+    for sample, strand, contig, bs, be, u, v in cells:
+        cell = (M_SAMPLE_ID.get(sample, -1), STRAND_ID.get(strand, -1), names.get(contig, -1), bs, be)
+        if cell in out:
+            return None
+        out[cell] = (u, v)
+    return out
+
+
+def enc_minput(lib, run, njobs):
+    cfg = [[run['b'], run['k'], run['mfs'], [] if run['min_mq'] is None else [run['min_mq']], 1 if run['dedup'] else 0, 0],
+           1 if run['dyad'] else 0, 1 if run['stranded'] else 0]
+    genome = []
+    for ci, (name, length) in enumerate(lib['contigs']):
+        rs = sorted(((r['pos'], i) for i, r in enumerate(lib['reads']) if r['c'] == ci))
+        recs = []
+        for _, i in rs:
+            r = lib['reads'][i]
+            f = r['flag']
+            recs.append([r['pos'], r['pos'] + span_of(r), 1 if f & 64 else 0, 1 if f & 512 else 0, 1 if f & 1024 else 0,
+                         MP_ID[r.get('mp')], r['mq'], M_SAMPLE_ID[r.get('sm')], 1 if f & 16 else 0,
+                         [[pos, XM_CODE.get(ch, 0 if ch == '.' else 3)] for pos, ch in zip(m_positions(r), r['xm'])]])
+        genome.append([ci + 1, length, recs])
+    sched = run['sched'] if run.get('sched') is not None else list(range(njobs))
+    return [cfg, genome, sched]
+
+
+def m_njobs(lib, run):
+    return sum(-(-l // (run['b'] * run['k'])) for _, l in lib['contigs'])
+
+
 class Prop(fw.PropBase):
     ID = 'C12'
     PROPS = 'Props/C12.v'
@@ -357,6 +555,15 @@ class Prop(fw.PropBase):
         'py2coq idiom int(a / b) -> Z.quot: assumes the IEEE quotient of two integers below 2^52 truncates to the exact quotient',
         'custom AST matchers in tools/c12.py for the nested generator of generate_jobs and the rejection chain of read_counts '
         '(fail closed)',
+        'extension, regions (hand-written, tied by K): one job per user region, pysam fetch overlap with [widened start, stop), the '
+        'Counter addition of the job results (modelled as a multiset count), the record filter of _generate_count_dict and '
+        'mate_iter (K uses unpaired passing records; a paired read-1 without proper-pair flag is yielded twice by mate_iter - not '
+        'modelled); fs = 1000 is a literal of the harness; regenerated: region start widening, ownership test, bin expression',
+        'extension, methylation (hand-written, tied by K): the read loop / aligned-pairs loop of count_methylation_binned around the '
+        'generated expressions (fetch window, ownership test, dyad shift and its place after the test, bin expressions, filter call), '
+        'get_aligned_pairs(matches_only=True) paired with XM by index (input of the model), the Z/z classification, the key tuple, '
+        'MethylationCountMatrix.__getitem__/update modelled as ONE finite map keyed by (sample, location) (iteration order not '
+        'modelled), the caller get_methylation_count_matrix; AST matcher translate_methylation (role checks, fail closed)',
     ]
     ASSUMPTIONS = [
         'H1 (visible in the theorems): every record that passes the filter has 0 <= site < contig length; a negative site is '
@@ -366,6 +573,12 @@ class Prop(fw.PropBase):
         'bin_size > 0, bins_per_job > 0, max_fragment_size >= 0; records are mapped (0 <= reference_start < contig length, '
         'reference_start < reference_end); one alignment file; alt_spans=None; head=None; skip_contigs=None; kwargs is a dict '
         '(the default kwargs=None of generate_commands makes count_fragments_binned raise AttributeError)',
+        'methylation theorems: dyad_mode off (visible hypothesis; with it the matrix depends on bins_per_job and completion order: '
+        'C12_meth_dyad_refuted, reproduced on the code, suggestion fixes/C12-D37), single_location off (bin_size != 1), '
+        'contexts_to_capture / known / maxtime / key_tags / alt_spans None, count_reads not compared, min_samples=0 and '
+        'min_variance=None (no pruning), XM present with one letter per aligned base, records inside their contig',
+        'region theorems are about the code AS IT IS (closed widened windows); the statement of the property is refuted on that path '
+        '(known finding D15)',
     ]
 
     def regen(self):
@@ -540,6 +753,120 @@ class Prop(fw.PropBase):
             hist.append({'contigs': cur['contigs'], 'reads': cur['reads'], 'runs': runs, 'rewrite': rewrite, 'wild': False})
         return hist
 
+
+    def gen_meth_lib(self):
+        rng = self.rng
+        b = rng.choice([2, 3, 5, 10, 10, 30])
+        ncont = rng.choice([1, 1, 2])
+        lens = [rng.choice([b * 6, b * 6 + rng.randint(1, b - 1), b * 4, 40, 95, b, b + 1, rng.randint(2, 200)]) for _ in range(ncont)]
+        contigs = [['chr%d' % (i + 1), l] for i, l in enumerate(lens)]
+        K = rng.choice([1, 2, 3])
+        reads = []
+        for _ in range(rng.randint(3, 18 if self.tier == 'quick' else 40)):
+            c = rng.randrange(ncont)
+            L = lens[c]
+            W = b * rng.randint(1, K)
+            m = rng.randint(0, max(0, L // W))
+            rl = rng.randint(1, 12)
+            # most records straddle or touch a job boundary
+            pos = rng.choice([m * W - rng.randint(0, rl), m * W, m * W - 1, m * W - rl, rng.randint(0, L - 1), 0, L - rl])
+            pos = max(0, min(L - 1, pos))
+            rl = max(1, min(rl, L - pos))
+            span = rl
+            if rl >= 2 and rng.random() < 0.2:
+                span = min(L - pos, rl + rng.randint(1, 3 * b))
+            flag = rng.choice([65, 65, 65 | 16, 65 | 16, 129, 129 | 16, 0, 16, 65 | 256, 65 | 2048])
+            if rng.random() < 0.1:
+                flag |= 1024
+            if rng.random() < 0.07:
+                flag |= 512
+            xm = ''.join(rng.choice('ZZzz..xhXHuU') if rng.random() < 0.8 else rng.choice('Zz') for _ in range(rl))
+            reads.append({'c': c, 'pos': pos, 'len': rl, 'span': span, 'flag': flag, 'ds': None, 'xm': xm,
+                          'mq': rng.choice([0, 29, 30, 50, 60, 60, 60]), 'sm': rng.choice([None, 'c1', 'c2', 'c3']),
+                          'mp': rng.choice([None, None, 'unique', 'multi']), 'da': None})
+        runs = []
+        base = {'b': b, 'min_mq': rng.choice([None, 0, 30, 50]), 'stranded': rng.random() < 0.4}
+        for k in [1, 2, 3, 4, rng.choice([5, 7, 50])]:
+            via = rng.choice(['jobs', 'jobs', 'caller'])
+            run = dict(base, k=k, via=via, dyad=rng.random() < 0.2,
+                       mfs=0 if via == 'caller' else rng.choice([0, 0, 1, 7, 1000]),
+                       dedup=True if via == 'caller' else rng.random() < 0.8, threads=1, sched=None)
+            order = list(range(m_njobs({'contigs': contigs}, run)))
+            how = rng.choice(['rev', 'shuffle', 'shuffle', 'id', 'pool'] if via == 'caller' else ['rev', 'shuffle', 'shuffle', 'id'])
+            if how == 'rev':
+                order.reverse()
+            elif how == 'shuffle':
+                rng.shuffle(order)
+            if how == 'pool':
+                # a real pool completes in an order the harness does not control: only inside the hypotheses of the theorems
+                # (with the dyad shift the matrix depends on the completion order - C12_meth_dyad_refuted)
+                run.update(threads=rng.randint(2, 3), sched=None, dyad=False)
+            elif via == 'caller' and how == 'id':
+                run.update(threads=1, sched=None)          # the caller's serial branch (generation order)
+            else:
+                # the caller consults its pool only when threads != 1; the stand-in pool then completes in `order`
+                run.update(sched=order, threads=2 if via == 'caller' else 1)
+            runs.append(run)
+        return {'contigs': contigs, 'reads': reads, 'runs': runs}
+
+    def meth_sweep(self):
+        """one Z call on every position of a short contig (forward and reverse records), every bins_per_job"""
+        out = []
+        for b, L in ([(3, 10)] if self.tier == 'quick' else [(2, 7), (3, 10), (5, 12)]):
+            reads = []
+            for s in range(L):
+                pos = max(0, s - 2)
+                reads.append({'c': 0, 'pos': pos, 'len': s - pos + 1, 'span': s - pos + 1, 'flag': 65 | (16 if s % 2 else 0), 'ds': None,
+                              'xm': '.' * (s - pos) + 'Zz'[s % 2], 'mq': 60, 'sm': ['c1', 'c2'][s % 2], 'mp': None, 'da': None})
+            runs = []
+            for k in range(1, L // b + 3):
+                order = list(range(-(-L // (b * k))))
+                if k % 2:
+                    order.reverse()
+                runs.append({'b': b, 'k': k, 'mfs': 0, 'threads': 1, 'min_mq': 50, 'dedup': True, 'dyad': False, 'stranded': bool(k % 2),
+                             'via': 'jobs', 'sched': order})
+            out.append({'contigs': [['chr1', L]], 'reads': reads, 'runs': runs, 'sweep': True})
+        return out
+
+    def gen_regions2(self):
+        """user region lists of every relative position (overlapping, adjacent, closer / farther than 1000, repeated, unsorted)
+        with sites on every edge of every window"""
+        rng = self.rng
+        L = rng.choice([6000, 9000])
+        grid = [0, 500, 1000, 1500, 2000, 2500, 3001, 3500, 4000, 5000, 5001, L - 1000, L - 1]
+        regs = []
+        for _ in range(rng.choice([1, 2, 2, 3, 3, 4])):
+            a, z = sorted(rng.sample(grid, 2))
+            regs.append([a, z])
+        how = rng.random()
+        if how < 0.25 and len(regs) >= 2:
+            regs[1][0] = regs[0][1]                                  # adjacent
+            regs[1][1] = max(regs[1][1], regs[1][0] + 500)
+        elif how < 0.45 and len(regs) >= 2:
+            regs[1][0] = regs[0][1] + rng.choice([999, 1000, 1001, 1, 1500])     # a gap around the margin
+            regs[1][1] = regs[1][0] + rng.choice([10, 700])
+        elif how < 0.55:
+            regs.append(list(regs[0]))                               # the same region twice
+        elif how < 0.8:
+            regs, at = [], rng.choice([0, 300, 1200])                # pairwise farther apart than the margin
+            for _ in range(rng.choice([2, 3])):
+                z = at + rng.choice([200, 900])
+                regs.append([at, z])
+                at = z + rng.choice([1001, 1001, 1300, 2000])
+            rng.shuffle(regs)
+        regs = [[a, min(z, L - 1)] for a, z in regs if a < min(z, L - 1)]
+        if not regs:
+            regs = [[1000, 2000]]
+        sites = set()
+        for a, z in regs:
+            sites.update([a - 1001, a - 1000, a - 999, a - 1, a, a + 1, z - 1, z, z + 1])
+        sites.update(rng.randint(2, L - 4) for _ in range(6))
+        reads = []
+        for sx in sorted(x for x in sites if 2 <= x <= L - 4):
+            lo = sx - rng.choice([0, 0, 1, 2])
+            reads.append([lo, lo + 3, sx])
+        return {'len': L, 'bin': rng.choice([1, 1, 100, 1000]), 'regions': regs, 'reads': reads, 'ext': True}
+
     def gen_all(self):
         quick = self.tier == 'quick'
         rng = self.rng
@@ -591,7 +918,23 @@ class Prop(fw.PropBase):
             regions.append({'len': L, 'bin': rng.choice([100, 500, 1000]),
                             'regions': rng.choice([None, [[0, cut], [cut, L]], [[cut, L]], [[0, cut]]]), 'reads': reads})
         histories = [self.gen_history() for _ in range(12 if quick else 150)]
-        return {'libs': libs, 'histories': histories, 'jobs': jobs, 'filters': filters, 'merges': merges, 'regions': regions}
+        regions += [self.gen_regions2() for _ in range(30 if quick else 400)]
+        meth = [self.gen_meth_lib() for _ in range(24 if quick else 500)] + self.meth_sweep()
+        mmerges = []
+        for _ in range(60 if quick else 600):
+            mats = []
+            for _j in range(rng.randint(0, 4)):
+                seen, mat = set(), []
+                for _e in range(rng.randint(0, 3)):
+                    key = (rng.randint(0, 2), rng.randint(0, 2), 1, 10 * rng.randint(0, 2), 10 * rng.randint(1, 3))
+                    if key in seen:
+                        continue
+                    seen.add(key)
+                    mat.append(list(key) + [rng.randint(0, 4), rng.randint(1, 4)])
+                mats.append(mat)
+            mmerges.append(mats)
+        return {'libs': libs, 'histories': histories, 'jobs': jobs, 'filters': filters, 'merges': merges, 'regions': regions,
+                'meth': meth, 'mmerges': mmerges}
 
     def load_corpus(self):
         d = os.path.join(fw.VERIF, 'corpus', 'C12')
@@ -620,9 +963,11 @@ class Prop(fw.PropBase):
         payload['histories'] = self.load_corpus_histories() + payload['histories']
         parts = [dict(libs=payload['libs'][i::n], histories=payload['histories'][i::n]) for i in range(n)]
         parts[0].update({k: payload[k] for k in ('jobs', 'filters', 'merges', 'regions')})
+        parts[1].update({k: payload[k] for k in ('meth', 'mmerges')})
         with ThreadPoolExecutor(n) as ex:
             rs = list(ex.map(lambda p: fw.run_impl('impl_c12.py', p), parts))
         res = dict(rs[0])
+        res['meth'], res['mmerges'] = rs[1]['meth'], rs[1]['mmerges']
         libs = [None] * len(payload['libs'])
         for i in range(n):
             libs[i::n] = rs[i]['libs']
@@ -719,6 +1064,46 @@ class Prop(fw.PropBase):
             'exhaustive_scopes': 'site sweeps: every site of a short contig x every bins_per_job 1..L/b+2 (mfs=0); '
                                  'read_counts: all 2^8 x 3 x 2 flag/option combinations; job lists: all lengths 0..3*b*k+2 for b*k <= 12',
         })
+        # ---- extension: methylation counter and region lists
+        mflat = []
+        for lib, lr in zip(payload['meth'], res['meth']):
+            if 'error' in lr:
+                raise fw.Broken('correspondence', 'harness could not write a BAM (methylation): %s' % lr['error'])
+            for run, rr in zip(lib['runs'], lr['runs']):
+                mflat.append((lib, run, rr))
+        self.mflat = mflat
+        m_nontrivial = set()
+        for lib, run, rr in mflat:
+            if 'cells' in rr and m_njobs(lib, run) >= 2 and sum(c[5] + c[6] for c in rr['cells']) >= 2:
+                m_nontrivial.add(fw.canon_hash([enc_minput(lib, run, m_njobs(lib, run)), sorted(map(str, rr['cells']))]))
+        ext_regions = [g for g in payload['regions'] if g.get('ext')]
+        calls_on_boundary = sum(1 for lib, run, rr in mflat for r in lib['reads'] for pos, ch in zip(m_positions(r), r['xm'])
+                                if ch in 'Zz' and (pos % (run['b'] * run['k']) in (0, run['b'] * run['k'] - 1)))
+        self.cov['evaluations'] += len(mflat) + len(payload['mmerges']) + len(ext_regions)   # + the get_binned_counts_prefixed calls
+        self.cov['distinct_nontrivial'] += len(m_nontrivial) + len(set(fw.canon_hash([g['bin'], g['regions'], g['reads']]) for g in ext_regions if len(g['regions']) >= 2))
+        self.cov['distinct_nontrivial_breakdown'].update({'methylation_runs': len(m_nontrivial),
+                                                          'region_lists': len(set(fw.canon_hash([g['bin'], g['regions'], g['reads']]) for g in ext_regions if len(g['regions']) >= 2))})
+        self.cov['rule'] += ('. EXTENSION: count_methylation_binned on synthetic BAMs with XM tags (records straddling job boundaries, both strands, '
+                             'read 2 / duplicates / QC fails / mp, spliced CIGARs), per (bins_per_job, max_fragment_size, dedup, min_mq, stranded, dyad_mode, '
+                             'completion order): either generate_commands + count_methylation_binned per job merged by the real '
+                             'MethylationCountMatrix.update in a prescribed order, or the real caller bamToMethylationCalls.get_methylation_count_matrix '
+                             '(serial, prescribed order through a stand-in pool, or a real Pool); non-trivial = at least 2 jobs and 2 calls counted. '
+                             'get_binned_counts region lists: 1-4 regions (adjacent, overlapping, repeated, gaps of 1 / 999 / 1000 / 1001 / 1500), sites on '
+                             'every edge of every widened window, bin sizes 1 (per-site multiplicity) / 100 / 1000; non-trivial = at least 2 regions')
+        self.cov.update({
+            'methylation_runs': len(mflat), 'methylation_libraries': len(payload['meth']),
+            'methylation_via': _hist(run['via'] + ('' if run.get('sched') is not None else ':pool' if run['threads'] > 1 else ':serial')
+                                     for _, run, _ in mflat),
+            'methylation_dyad_runs': sum(1 for _, run, _ in mflat if run['dyad']),
+            'methylation_stranded_runs': sum(1 for _, run, _ in mflat if run['stranded']),
+            'methylation_precondition_hit_rate': round(sum(1 for lib, run, _ in mflat if py_mpre(lib, run)) / max(1, len(mflat)), 4),
+            'methylation_calls_on_job_edge': calls_on_boundary,
+            'methylation_bins_per_job_hist': _hist(run['k'] for _, run, _ in mflat),
+            'methylation_update_kernel_cases': len(payload['mmerges']),
+            'region_list_cases': len(ext_regions), 'region_list_calls': 2 * len(ext_regions),
+            'region_list_sizes': _hist(len(g['regions']) for g in ext_regions),
+            'region_bin1_cases': sum(1 for g in ext_regions if g['bin'] == 1),
+        })
         if not self.model_ok:
             return
         dis = []
@@ -793,6 +1178,63 @@ class Prop(fw.PropBase):
                 exp = sorted(next(it))
             if r.get('cells') != exp:
                 dis.append({'fn': 'get_binned_counts', 'input': g, 'model': exp, 'impl': r})
+        # ---- extension: region multiplicities (theorem C12_regions_exact / _separated_once evaluated on model and implementation)
+        rin = [[1000, g['regions'], g['reads']] for g in ext_regions]
+        mult = fw.run_model('C12', 8, rin)
+        sep = fw.run_model('C12', 9, [[1000, g['regions']] for g in ext_regions])
+        rres = {id(g): r for g, r in zip(payload['regions'], res['regions'])}
+        mult_hist, n_sep = {}, 0
+        for g, mu, sp in zip(ext_regions, mult, sep):
+            for x in mu:
+                mult_hist[min(x, 3)] = mult_hist.get(min(x, 3), 0) + 1
+            n_sep += 1 if sp == 1 else 0
+            if sp == 1 and any(x > 1 for x in mu):
+                dis.append({'fn': 'model', 'what': 'separated regions with a multiplicity > 1 (theorem C12_regions_separated_once!)', 'input': g})
+            # statement C12_regions_exact on the implementation's table: count of bin b = sum of the multiplicities of its records
+            h = {}
+            for (lo, hi, sx), x in zip(g['reads'], mu):
+                if x:
+                    bs = (sx // g['bin']) * g['bin']
+                    h[bs] = h.get(bs, 0) + x
+            exp = sorted([a, n] for a, n in h.items())
+            if rres[id(g)].get('cells') != exp:
+                dis.append({'fn': 'get_binned_counts(regions)', 'what': 'table differs from the sum of region multiplicities (C12_regions_exact)',
+                            'input': g, 'model': exp, 'impl': rres[id(g)]})
+            if rres[id(g)].get('prefixed') != exp:
+                dis.append({'fn': 'get_binned_counts_prefixed(regions)', 'what': 'table differs from the sum of region multiplicities '
+                            '(C12_regions_exact with C12_regions_prefixed_same)', 'input': g, 'model': exp, 'impl': rres[id(g)].get('prefixed')})
+        self.cov['region_multiplicity_hist'] = dict(sorted(mult_hist.items()))
+        self.cov['region_lists_separated'] = n_sep
+        # ---- extension: methylation
+        mins = [enc_minput(lib, run, m_njobs(lib, run)) for lib, run, rr in mflat]
+        mmo = fw.run_model('C12', 10, mins)
+        mmpre = fw.run_model('C12', 11, [i[:2] for i in mins])
+        mmd = fw.run_model('C12', 12, [i[:2] for i in mins])
+        m_spec = 0
+        for (lib, run, rr), m, mp_, md in zip(mflat, mmo, mmpre, mmd):
+            tag = {'fn': 'count_methylation_binned via %s' % run['via'], 'lib': {k: lib[k] for k in ('contigs', 'reads')}, 'run': run}
+            if (mp_ == 1) != py_mpre(lib, run):
+                dis.append(dict(tag, what='python precondition differs from Coq [m_pre]', model=mp_))
+            if 'error' in rr:
+                dis.append(dict(tag, model='Ok', impl=rr))
+                continue
+            got = canon_mcells(lib, rr['cells'])
+            exp = {tuple(c[:5]): (c[5], c[6]) for c in m}
+            if got is None or got != exp or len(exp) != len(m):
+                dis.append(dict(tag, model=sorted(exp.items()), impl=sorted((got or {}).items())))
+            dd = {tuple(c[:5]): (c[5], c[6]) for c in md[0]}
+            ps = py_mspec(lib, run)
+            if dd != ps or md[1] != sum(u + v for u, v in ps.values()):
+                dis.append(dict(tag, what='python oracle differs from Coq [m_decl]', model=sorted(dd.items()), oracle=sorted(ps.items())))
+            if mp_ == 1:
+                m_spec += 1
+                if exp != dd:
+                    dis.append(dict(tag, what='model output differs from [m_decl] although [m_pre] holds (theorem C12_meth_obtain!)'))
+        mk = fw.run_model('C12', 14, payload['mmerges'])
+        for inp, m, r in zip(payload['mmerges'], mk, res['mmerges']):
+            if not isinstance(r, list) or sorted(r) != sorted(m):
+                dis.append({'fn': 'MethylationCountMatrix.update', 'input': inp, 'model': m, 'impl': r})
+        self.cov['methylation_theorem_instances_checked_on_model'] = m_spec
         self.cov['traces_validated_against_impl'] = self.cov['evaluations']
         self.cov['theorem_instances_checked_on_model'] = spec_checked
         self.cov['disagreements'] = len(dis)
@@ -801,6 +1243,16 @@ class Prop(fw.PropBase):
         self.cov['vm_compute_crosscheck'] = {'cases': len(idx), 'mismatches': nm}
         if not ok:
             raise fw.Broken('extraction', 'vm_compute and extracted model disagree: ' + log[-800:])
+        midx = sorted(self.rng.sample(range(len(mins)), min(40, len(mins))))
+        ok, nm, log = fw.vm_crosscheck('C12', 10, [(mins[i], mmo[i]) for i in midx], run_name='run_C12x', require='Model.C12 Model.C12x')
+        self.cov['vm_compute_crosscheck_methylation'] = {'cases': len(midx), 'mismatches': nm}
+        if not ok:
+            raise fw.Broken('extraction', 'vm_compute and extracted model disagree (methylation): ' + log[-800:])
+        ridx = sorted(self.rng.sample(range(len(rin)), min(20, len(rin))))
+        ok, nm, log = fw.vm_crosscheck('C12', 8, [(rin[i], mult[i]) for i in ridx], run_name='run_C12x', require='Model.C12 Model.C12x')
+        self.cov['vm_compute_crosscheck_regions'] = {'cases': len(ridx), 'mismatches': nm}
+        if not ok:
+            raise fw.Broken('extraction', 'vm_compute and extracted model disagree (regions): ' + log[-800:])
         if dis:
             self.dis = dis
             raise fw.Broken('correspondence', 'model and implementation disagree on %d cases; first: %s'
@@ -941,19 +1393,79 @@ def _search(self):
                                                               {0: 'absent', 1: 'unique', 2: 'multi'}[f[8]], f[9], r),
                                    'input': f, 'impl': r, 'expected': _filter_spec(f)})
             break
-    # 4. the region counter
-    for g, r in zip(payload['regions'], res['regions']):
+    # 4. the region counter: every case is looked at; the recorded behaviour (D15: widened closed windows, one count per
+    #    containing window - theorem C12_regions_exact) is told apart from any OTHER deviation from "once per record in the regions"
+    d15, other = None, None
+    for g, r0, fname, field in [(g, r, 'get_binned_counts', 'cells') for g, r in zip(payload['regions'], res['regions'])] + \
+                               [(g, r, 'get_binned_counts_prefixed', 'prefixed') for g, r in zip(payload['regions'], res['regions'])
+                                if g.get('ext')]:
         exp = _region_union_spec(g)
+        r = {'cells': r0.get(field)} if field in r0 else r0
         if r.get('cells') != exp:
+            w = {'what': '%s(bin_size=%d, regions=%r): counts differ from one count per record '
+                         'whose site lies in the regions' % (fname, g['bin'], g['regions']),
+                 'input': {k: v for k, v in g.items() if k != 'ext'}, 'impl': r, 'expected': exp}
             if g['regions'] is not None and r.get('cells') == _region_defect_model(g):
-                key = 'D15-region-edge'
-            else:
-                key = 'regions-other'
-            self.witnesses.append({'key': key, 'what': 'get_binned_counts(bin_size=%d, regions=%r): counts differ from one count per record '
-                                                       'whose site lies in the regions' % (g['bin'], g['regions']),
-                                   'input': g, 'impl': r, 'expected': exp})
-            break
+                if d15 is None:
+                    d15 = dict(w, key='D15-region-edge')
+            elif other is None or len(g['reads']) < len(other['input']['reads']):
+                other = dict(w, key='regions-other', expected_as_recorded=_region_defect_model(g) if g['regions'] is not None else exp)
+    for w in (d15, other):
+        if w:
+            self.witnesses.append(w)
+    # 5. the methylation counter: the declarative matrix [m_decl] (python transcription, tied to Coq by the correspondence run)
+    #    on the implementation's matrices, for the runs inside the theorem's hypotheses (no dyad shift)
+    mflat = getattr(self, 'mflat', None)
+    if mflat is None:
+        mflat = [(lib, run, rr) for lib, lr in zip(payload.get('meth', []), res.get('meth', [])) if 'runs' in lr
+                 for run, rr in zip(lib['runs'], lr['runs'])]
+    worst = None
+    for lib, run, rr in mflat:
+        if not py_mpre(lib, run):
+            continue
+        got = canon_mcells(lib, rr['cells']) if 'cells' in rr else None
+        if got != py_mspec(lib, run):
+            size = (len(lib['reads']), m_njobs(lib, run))
+            if worst is None or size < worst[0]:
+                worst = (size, lib, run, rr)
+    if worst:
+        lib, run, rr = _mshrink(worst[1], worst[2], worst[3])
+        exp = py_mspec(lib, run)
+        got = canon_mcells(lib, rr['cells']) if 'cells' in rr else None
+        diff = sorted(set((got or {}).items()) ^ set(exp.items()))[:6]
+        self.witnesses.append({
+            'key': 'meth:%s' % ('error' if 'error' in rr else 'cells'),
+            'what': 'count_methylation_binned over generate_commands(bin_size=%d, bins_per_job=%d, max_fragment_size=%d, min_mq=%r, dedup=%r) '
+                    'merged by MethylationCountMatrix.update (%s) on %d records: %s'
+                    % (run['b'], run['k'], run['mfs'], run['min_mq'], run['dedup'], run['via'], len(lib['reads']),
+                       rr.get('error') or 'cells (sample, strand, contig, bin_start, bin_end) -> (n_z, n_Z) differ from the calls of the '
+                                          'passing records: %r' % (diff,)),
+            'input': {'contigs': lib['contigs'], 'reads': lib['reads'], 'run': run},
+            'impl': rr.get('error') or sorted((got or {}).items()), 'expected': sorted(exp.items())})
 
+
+def _mshrink(lib, run, rr):
+    def fails(l, o):
+        got = canon_mcells(l, o['cells']) if 'cells' in o else None
+        return got != py_mspec(l, run)
+    lib = {k: v for k, v in lib.items() if k != 'runs'}
+    for _ in range(6):
+        if len(lib['reads']) <= 1:
+            break
+        h = len(lib['reads']) // 2
+        cands = [dict(lib, reads=lib['reads'][:h], runs=[run]), dict(lib, reads=lib['reads'][h:], runs=[run])] + \
+                [dict(lib, reads=lib['reads'][:i] + lib['reads'][i + 1:], runs=[run]) for i in range(len(lib['reads']))]
+        try:
+            outs = fw.run_impl('impl_c12.py', {'meth': cands})['meth']
+        except Exception:
+            break
+        for cnd, o in zip(cands, outs):
+            if 'runs' in o and fails(cnd, o['runs'][0]):
+                lib, rr = {k: v for k, v in cnd.items() if k != 'runs'}, o['runs'][0]
+                break
+        else:
+            break
+    return lib, run, rr
 
 def _shrink(self, lib, run, rr):
     """greedy removal of records (one implementation process per round)"""
